@@ -743,8 +743,15 @@ def main():
             r = r2 if r2["status"] == "reproduced" else r
     elif any((f.get("scenario") or {}).get("kind") == "vm" for f in fails):
         r = replay_vm(exe, fails)
+    elif any((f.get("scenario") or {}).get("kind") == "grammar" for f in fails):
+        from replay_grammar import replay_grammar
+        r = replay_grammar(run, exe, fails)
     elif any((f.get("scenario") or {}).get("kind") == "tokens" for f in fails):
         r = replay_tokens(exe, fails)
+        if r["status"] != "reproduced":
+            from replay_grammar import replay_grammar
+            r2 = replay_grammar(run, exe, fails)
+            r = r2 if r2["status"] == "reproduced" else r
     elif any((f.get("scenario") or {}).get("kind") == "dispatch" for f in fails):
         r = replay_dispatch(exe, fails)
     elif any((f.get("scenario") or {}).get("kind") == "details" for f in fails):
